@@ -26,7 +26,7 @@ ASSUMPTIONS = [
 ]
 COMPONENTS = {"real": ["sexp_make_eval_context / sexp_load_standard_env / module loading with dlopen", "per-context heap, symbol and type tables", "collector", "sexp_destroy_context", "pthreads"],
               "stub": ["which OS thread runs (baton + tape)", "collection schedule per context", "clock"]}
-BUDGET = {"quick": {"seconds": 75, "cases": 2000}, "thorough": {"seconds": 1500, "cases": 100000}}
+BUDGET = {"quick": {"seconds": 75, "cases": 2000, "min_cases": 90}, "thorough": {"seconds": 1500, "cases": 100000}}
 CONFIGS = {
     "sim": {"variant": "sim", "imports": [], "timeout_ms": 180000, "extra": ["--no-template"]},
     "asan": {"variant": "asan", "imports": [], "timeout_ms": 400000, "extra": ["--no-template"]},
